@@ -356,6 +356,7 @@ fn tick() -> u64 {
 /// One execution; returns the first violation.
 fn body(p: &P17) -> Option<(String, String)> {
     CLK.store(0, Ordering::SeqCst);
+    let orphan_exits_before = parking_lot::verif_rt::orphan_worker_exits();
     let fs = Arc::new(SwitchFs {
         inner: TmpFileSystem::new(None),
         on: AtomicBool::new(false),
@@ -614,6 +615,14 @@ fn body(p: &P17) -> Option<(String, String)> {
         e.sort_by_key(|e| e.invoke);
         e.iter().map(|e| format!("A{} {} [{}..{}] -> {}", e.actor, e.what, e.invoke, e.ret, if e.ok { "Ok".to_string() } else { format!("Err({})", e.err.chars().take(40).collect::<String>()) })).collect::<Vec<_>>().join(" | ")
     };
+    // the background thread of an open that failed before it handed the thread any command (a
+    // refused open, among others): in the verification build that thread reports that it has
+    // reached the place where the real build would unwrap a receive error - a panic of a thread
+    // of the process that owns the database
+    for _ in 0..4 {
+        shuttle::thread::yield_now();
+    }
+    let orphan_panics = parking_lot::verif_rt::orphan_worker_exits() - orphan_exits_before;
     if trace() {
         trace_line(format!(
             "[c17] {} table files created while the actors ran; history: {}; mutations: {:?}; actor tasks {:?}; opens {:?}",
@@ -646,6 +655,12 @@ fn body(p: &P17) -> Option<(String, String)> {
                 }
             }
         }
+    }
+    if verdict.is_none() && orphan_panics > 0 {
+        verdict = Some((
+            "C17.failed_open_panics_a_thread".into(),
+            format!("{} DB::open call(s) that failed left a background thread behind that panics (receive on a channel whose sender was dropped) - in a process that aborts on panic a refused open attempt kills the running owner ({})", orphan_panics, hist()),
+        ));
     }
     if verdict.is_none() && max_alive.load(Ordering::SeqCst) > 1 {
         verdict = Some(("C17.two_owners".into(), format!("two successfully opened handles were alive at the same time: {}", hist())));
